@@ -753,3 +753,109 @@ def r_chase_visited(cx):
            "last): a look-up chain that returns to an earlier entry cycles until the round budget is exhausted and a "
            "well-formed nested macro is refused as circular"), cx.where(f.d["span"]))
     cx.count("R-CHASE-VISITED", "membership_tests", wide)
+
+
+@rule("R-CHASE-NEEDLE", ["C04"])
+def r_chase_needle(cx):
+    """A look-up value `$name(default)` is split into one or two parts; the *name* is the next needle. `chase` takes the
+    needle off the end of that list, so at that `pop` the list holds exactly one element on every path: wherever the
+    list reaches the pop without having lost its second element, the branch decisions on that path establish that there
+    was no second element (`len == 2` false). Otherwise a default met in mid-chase (`north=$n(1)` behind `y=$north`) is
+    taken for the next name to look up."""
+    import guards
+    f = cx.f.fn("op::parsed_parameters::chase")
+    pops = [(bb, t) for bb, t in f.calls() if (f.callee(t) or "").endswith("Vec::<T, A>::pop")]
+    n = 0
+    for bb, t in pops:
+        a = f.arg_terms(bb)[0]
+        if a[0] != "refplace" or a[3]:
+            continue
+        v = mir.strip_refs(f.local_value(a[2], f.end_point(bb)))
+        if v[0] != "phi" or not isinstance(v[1][0], int):
+            continue
+        reach = f.reachable()
+        preds = [p for p in f.pred[v[1][0]] if p in reach]
+        if len(preds) != len(v[2]):
+            continue
+        n += 1
+        bad = []
+        for p, arm in zip(preds, v[2]):
+            arm = mir.strip_refs(arm)
+            if arm[0] == "mod":
+                continue        # already shortened by a pop on this path
+            facts = guards.edge_facts(f, p, v[1][0])
+            excluded = False
+            for at, tv in facts:
+                at = mir.strip_refs(at)
+                if at[0] == "bin" and at[1] in ("Eq", "Ne") and mir.strip_refs(at[3])[0] == "const" and mir.strip_refs(at[3])[2] == 2:
+                    ln = mir.strip_refs(at[2])
+                    if ln[0] == "call" and isinstance(ln[1], str) and ln[1].rsplit("::", 1)[-1] == "len" and \
+                            mir.strip_refs(ln[2][0]) == arm and ((at[1] == "Eq" and not tv) or (at[1] == "Ne" and tv)):
+                        excluded = True
+            if not excluded:
+                bad.append(p)
+        ok = not bad
+        cx.ob("R-CHASE-NEEDLE", "chase/needle%d" % (n - 1), ok,
+              "the list holds exactly the name when the next needle is taken from it" if ok else
+              "chase can take the next needle from a `$name(default)` list that still holds its default (the default is "
+              "only removed when no chase is in progress): `north=$n(1)` reached from `y=$north` looks up the name `1`",
+              cx.where(t["span"]))
+    cx.count("R-CHASE-NEEDLE", "needle_pops", n)
+
+
+@rule("R-FORWARD-SELF", ["C04"])
+def r_forward_self(cx):
+    """RawParameters::next copies the arguments of a macro invocation into the map of caller values its body sees. An
+    argument forwarded under its own name (`a=$a`) is a reference to the caller's `a`: copied blindly it replaces the
+    very entry it refers to, and the nested macro cannot resolve `$a` any more. The arguments are therefore filtered
+    (a `retain` / `filter` whose predicate looks at the `$` prefix of the value) before they are merged into the
+    caller's map - decided on the shape of `next`: the value handed to `extend` has passed such a filter."""
+    name = "op::raw_parameters::RawParameters::next"
+    f = cx.f.fn(name)
+    n = 0
+    for bb, t in f.calls():
+        c = f.callee(t) or ""
+        if not (c.rsplit("::", 1)[-1] in ("extend", "append") and "BTreeMap" in c):
+            continue
+        n += 1
+        src = f.arg_terms(bb)[1] if len(f.arg_terms(bb)) > 1 else ("unknown",)
+        if src[0] == "refplace" and not src[3]:
+            src = f.local_value(src[2], f.end_point(bb))
+        filtered = []
+
+        def vis(y):
+            clos = None
+            if y[0] == "mod" and isinstance(y[2], tuple) and len(y[2]) > 1 and isinstance(y[2][1], str) and \
+                    y[2][1].rsplit("::", 1)[-1] in ("retain", "extract_if"):
+                # the closure handed to that retain call
+                sb = y[2][0]
+                for x in f.arg_terms(sb):
+                    if x[0] == "agg" and isinstance(x[1], tuple) and x[1][0] == "closure":
+                        clos = x[1][1]
+            if y[0] == "call" and isinstance(y[1], str) and y[1].rsplit("::", 1)[-1] in ("filter", "filter_map"):
+                for x in y[2]:
+                    if x[0] == "agg" and isinstance(x[1], tuple) and x[1][0] == "closure":
+                        clos = x[1][1]
+            if clos and cx.f.has_fn(clos):
+                g = cx.f.fn(clos)
+                names = [clos] + [x for x in cx.f.lib["fns"] if x.startswith(clos + "::{closure")]
+                for nm in names:
+                    gg = cx.f.fn(nm)
+                    for b2, t2 in gg.calls():
+                        if (gg.callee(t2) or "").rsplit("::", 1)[-1] in ("strip_prefix", "starts_with"):
+                            a2 = gg.arg_terms(b2)
+                            if len(a2) > 1 and mir.strip_refs(a2[1])[0] == "const" and mir.strip_refs(a2[1])[2] in (("char", "$"), ("str", "$")):
+                                filtered.append(1)
+            return True
+        mir.walk(src, vis)
+        ok = bool(filtered)
+        cx.ob("R-FORWARD-SELF", "next/extend%d" % (n - 1), ok,
+              "the invocation's arguments are filtered for self-references before they are merged into the caller's values"
+              if ok else
+              "RawParameters::next merges the arguments of a macro invocation into the caller's values unfiltered: an "
+              "argument forwarded under its own name (`inner:m a=$a`) replaces the caller's `a` by a reference to itself, "
+              "and the nested macro reports `'a' not found`", cx.where(t["span"]))
+    if n == 0:
+        cx.ob("R-FORWARD-SELF", "next/extend", False, "anchor-missing: RawParameters::next does not merge maps with extend",
+              cx.where(f.d["span"]))
+    cx.count("R-FORWARD-SELF", "merges", n)
